@@ -1156,6 +1156,10 @@ def run(ctx):
         finally:
             if rec:
                 recs.extend(rec)
+            if len(recs) > 15000:
+                # keep the heap small: the full gc.collect() after every merge walks everything that is alive
+                tie(res, recs)
+                recs = []
         res.case({"engine": ename, "seq": seq}, nontrivial=stats["maxq"] >= 2)
         res.count("sequences:" + ename)
         for k in ("ok", "refused", "random", "forced", "entangled_absorb"):
